@@ -7,6 +7,9 @@
 //!      -> `NEWERR <variant>` | `OK <w> <h> <alpha> <anim> <pixels>` | `ERR <variant> <w> <h> <alpha> <anim> buf=<same|?|pixels>`
 //!   `rimg frames <n> <fill> <hex file>`       WebPDecoder::new + n x read_frame on a buffer of output_buffer_size() bytes
 //!      -> `NEWERR <variant>` | `<w> <h> <alpha> <anim>` + per call ` | OK <duration> <pixels>` / ` | ERR <variant>` (trace ends there)
+//!   `rimg ops <ops> <fill> <hex file>`        WebPDecoder::new + the call sequence over F read_frame, R reset_animation, I read_image,
+//!      S caller refills its buffer, on ONE buffer -> `<w> <h> <alpha> <anim>` + per call ` | F OK <dur> <pixels>` / ` | F ERR <variant> <pixels>` /
+//!      ` | I OK <pixels>` / ` | I ERR <variant> <pixels>` / ` | R` / ` | S` (<pixels> = the caller's buffer after the call)
 //!   <pixels>: hex, or `H<fnv1a64>` above 16384 pixels.  `buf=?`: the lossless decoder failed while writing in place in the
 //!   caller's buffer (still VP8L file with alpha); the model does not describe the partial contents.
 //!   An error raised by the VP8 frame decoder is printed as variant `Vp8Decode` (the VP8 specification has no error classes):
@@ -275,6 +278,66 @@ pub fn frames_impl(file: &[u8], n: usize, fill: u8) -> String {
     }
 }
 
+/// WebPDecoder::new + a call sequence over F / R / I / S on one buffer (animated files only: read_frame asserts it)
+pub fn ops_impl(file: &[u8], ops: &str, fill: u8) -> String {
+    let f = file.to_vec();
+    let ops = ops.to_string();
+    let r = catch(move || -> String {
+        let mut d = match WebPDecoder::new(Cursor::new(f.clone())) {
+            Ok(d) => d,
+            Err(e) => return format!("NEWERR {}", err_name(&e)),
+        };
+        let (w, h) = d.dimensions();
+        let mut s = format!("{} {} {} {}", w, h, b(d.has_alpha()), b(d.is_animated()));
+        if !d.is_animated() {
+            return s + " | PANIC assert";
+        }
+        let (table, first) = d.verif_chunk_table();
+        let first = table.iter().find(|c| &c.0 == b"ANMF").map(|c| c.1 - 8).unwrap_or(first);
+        let mut pos = first;
+        let mut buf = vec![fill; d.output_buffer_size().unwrap_or(0)];
+        for op in ops.chars() {
+            match op {
+                'F' => {
+                    let walk = frame_vp8_payload(&f, pos);
+                    match d.read_frame(&mut buf) {
+                        Ok(dur) => {
+                            s += &format!(" | F OK {} {}", dur, pixels(w, h, &buf));
+                            pos = walk.map(|x| x.0 + x.1 + 8).unwrap_or(pos);
+                        }
+                        Err(e) => {
+                            let name = err_name(&e);
+                            let name = if name == "NoMoreFrames" { name } else { label(name, walk.and_then(|x| x.2).as_deref()) };
+                            s += &format!(" | F ERR {} {}", name, pixels(w, h, &buf));
+                        }
+                    }
+                }
+                'R' => {
+                    d.reset_animation();
+                    pos = first;
+                    s += " | R";
+                }
+                'I' => match d.read_image(&mut buf) {
+                    Ok(()) => s += &format!(" | I OK {}", pixels(w, h, &buf)),
+                    Err(e) => {
+                        let name = label(err_name(&e), frame_vp8_payload(&f, first).and_then(|x| x.2).as_deref());
+                        s += &format!(" | I ERR {} {}", name, pixels(w, h, &buf));
+                    }
+                },
+                _ => {
+                    buf.iter_mut().for_each(|x| *x = fill);
+                    s += " | S";
+                }
+            }
+        }
+        s
+    });
+    match r {
+        Ok(x) => x,
+        Err(m) => format!("PANIC {}", m.replace('\n', " ")),
+    }
+}
+
 // ------------------------------------------------------------------------------------------------
 struct Cx {
     out: Out,
@@ -377,6 +440,73 @@ impl Cx {
             }
             Some(_) => self.feat.inc(&format!("libwebp_frames.{class}.same_count")),
             None => self.feat.inc(&format!("libwebp_frames.{class}.libwebp_rejects")),
+        }
+    }
+
+    /// a call sequence on an animation; native decision: C07's cursor machine over what a fresh decoder plays
+    fn ops(&mut self, class: &str, file: &[u8], ops: &str) {
+        if self.too_large(file) {
+            return;
+        }
+        self.evaluations += 1;
+        let line = ops_impl(file, ops, FILL);
+        let case = format!("rimg ops {} {} {}", ops, FILL, hex(file));
+        self.out.case(&case, &line);
+        let items: Vec<&str> = line.split(" | ").collect();
+        let bad = items.iter().any(|i| i.contains("PANIC"));
+        self.feat.inc(&format!("class.{class}.inputs"));
+        self.feat.inc(&format!("class.{class}.{}", if line.starts_with("NEWERR") { "newerr" } else if bad { "panic" } else if items.iter().any(|i| i.contains(" ERR ") && !i.contains("NoMoreFrames")) { "some_error" } else { "all_ok_or_exhausted" }));
+        self.feat.add("ops.calls", ops.len() as u64);
+        for c in ops.chars() {
+            self.feat.inc(&format!("ops.op.{c}"));
+        }
+        if bad {
+            self.viol(format!("[{class}] implementation panics: {}", line.chars().take(200).collect::<String>()));
+        }
+        // the cursor machine (only when a fresh decoder plays every frame): F delivers frame `cursor` of a fresh playback or NoMoreFrames
+        // with the buffer untouched, R rewinds, I delivers frame 0 and keeps the cursor, S refills
+        if items.len() != ops.len() + 1 || line.starts_with("NEWERR") {
+            return;
+        }
+        let f2 = file.to_vec();
+        let nf = catch(move || WebPDecoder::new(Cursor::new(f2)).ok().map(|d| d.num_frames())).ok().flatten().unwrap_or(0) as usize;
+        let fresh = frames_impl(file, nf, FILL);
+        let shown: Vec<&str> = fresh.split(" | ").skip(1).collect();
+        if shown.len() != nf || shown.iter().any(|x| !x.starts_with("OK ")) {
+            return;
+        }
+        let hd: Vec<u64> = items[0].split(' ').filter_map(|x| x.parse().ok()).collect();
+        if hd.len() != 4 {
+            return;
+        }
+        let fill_px = pixels(hd[0] as u32, hd[1] as u32, &vec![FILL; (hd[0] * hd[1] * if hd[2] == 1 { 4 } else { 3 }) as usize]);
+        let px_of = |item: &str| item[item.rfind(' ').unwrap() + 1..].to_string();
+        let (mut cursor, mut cur) = (0usize, fill_px.clone());
+        for (k, (op, item)) in ops.chars().zip(items.iter().skip(1)).enumerate() {
+            let expect = match op {
+                'F' if cursor < nf => {
+                    cur = px_of(shown[cursor]);
+                    cursor += 1;
+                    format!("F {}", shown[cursor - 1])
+                }
+                'F' => format!("F ERR NoMoreFrames {}", cur),
+                'R' => {
+                    cursor = 0;
+                    "R".to_string()
+                }
+                'I' => {
+                    cur = px_of(shown[0]);
+                    format!("I OK {}", cur)
+                }
+                _ => {
+                    cur = fill_px.clone();
+                    "S".to_string()
+                }
+            };
+            if *item != expect {
+                self.viol(format!("{case} : call {k} ({op}) gives `{}` but the playback cursor gives `{}`", item.chars().take(80).collect::<String>(), expect.chars().take(80).collect::<String>()));
+                break;
+            }
         }
     }
 
@@ -498,6 +628,8 @@ pub fn run(tier: &str, seed: u64, outdir: &str, extra: &[String]) {
                 cx.still("replay", &unhex(w[4]), w[2].parse::<usize>().ok());
             } else if w.len() == 5 && w[0] == "rimg" && w[1] == "frames" {
                 cx.frames("replay", &unhex(w[4]), w[2].parse::<usize>().unwrap_or(1));
+            } else if w.len() == 5 && w[0] == "rimg" && w[1] == "ops" {
+                cx.ops("replay", &unhex(w[4]), w[2]);
             }
         }
     } else {
@@ -883,6 +1015,85 @@ pub fn run(tier: &str, seed: u64, outdir: &str, extra: &[String]) {
                         continue;
                     }
                     cx.animation("between_frames.truncated", &file[..cut]);
+                }
+            }
+        }
+
+        // ---- (J) call sequences (C07): read_frame / reset_animation / read_image / buffer refill in any order ----
+        {
+            let mut o_rng = Rng::new(seed ^ 0xC07);
+            let mut anims: Vec<(String, Vec<u8>)> = vec![];
+            for it in corpus::generated_animations(&mut o_rng, if thorough { 40 } else { 12 }, 16) {
+                anims.push(("ops.generated".to_string(), it.bytes));
+            }
+            for it in corpus::test_images(if thorough { 400_000 } else { 60_000 }).into_iter().filter(|i| i.kind == "animated") {
+                anims.push(("ops.test_image".to_string(), it.bytes));
+            }
+            // animations with chunks between the frames, frames that leave pixels behind (sub-rectangles, blend / dispose)
+            for i in 0..(if thorough { 30 } else { 8 }) {
+                let mut r = o_rng.fork();
+                let (cw, ch) = pick_dims(&mut r, maxd.min(20));
+                let nframes = 1 + r.below(4) as usize;
+                let mut top: Vec<Vec<u8>> = vec![];
+                let mut ok = true;
+                for fi in 0..nframes {
+                    let (fw, fh) = (1 + r.below(cw as u64) as usize, 1 + r.below(ch as u64) as usize);
+                    let (ox, oy) = ((r.below((cw - fw + 1) as u64) as u32) & !1, (r.below((ch - fh + 1) as u64) as u32) & !1);
+                    let body = match (i + fi) % 3 {
+                        0 => vp8l_payload(&mut r, fw, fh, &mut cx.feat).map(|p| sub_chunks(&[(*b"VP8L", p)])),
+                        1 => vp8_payload(&mut r, fw, fh, &mut cx.feat).map(|p| sub_chunks(&[(*b"VP8 ", p)])),
+                        _ => {
+                            let (a, _) = c05::alpha_content(&mut r, fw, fh);
+                            let (fl, cmp) = (r.below(4) as u8, r.chance(1, 2));
+                            match (c05::alph_payload(&mut r, &a, fw, fh, fl, cmp, 0), vp8_payload(&mut r, fw, fh, &mut cx.feat)) {
+                                (Some(al), Some(p)) => Some(sub_chunks(&[(*b"ALPH", al), (*b"VP8 ", p)])),
+                                _ => None,
+                            }
+                        }
+                    };
+                    let Some(body) = body else { ok = false; break };
+                    if r.chance(1, 2) {
+                        let kk = r.below(6) as usize;
+                        top.push(rw::chunk(b"unkn", &r.bytes(kk)));
+                    }
+                    top.push(rw::chunk(b"ANMF", &anmf_payload(ox / 2, oy / 2, fw as u32 - 1, fh as u32 - 1, 10 * (fi as u32 + 1), r.below(4) as u8, &body)));
+                }
+                if ok {
+                    let bg = [r.byte(), r.byte(), r.byte(), r.byte()];
+                    anims.push(("ops.between_frames".to_string(), anim_file(cw as u32, ch as u32, r.chance(1, 2), bg, &top)));
+                }
+            }
+            // a damaged second frame: the failing read_frame must leave state and buffer as the model says, also across reset / read_image
+            let n_ok = anims.len();
+            for k in 0..n_ok.min(if thorough { 12 } else { 4 }) {
+                let mut f = anims[k * 2 % n_ok].1.clone();
+                let n = f.len();
+                if n > 60 {
+                    let at = n - 1 - o_rng.below((n / 3) as u64) as usize;
+                    f[at] ^= 1 << o_rng.below(8);
+                    anims.push(("ops.damaged".to_string(), f));
+                }
+            }
+            for (class, file) in &anims {
+                let f2 = file.clone();
+                let nf = catch(move || WebPDecoder::new(Cursor::new(f2)).ok().map(|d| d.num_frames())).ok().flatten().unwrap_or(1) as usize;
+                // fixed shapes: exhaustion then reset; read_image first / in the middle / after exhaustion; refill before a failing call
+                let all_f = "F".repeat(nf);
+                let mut seqs: Vec<String> = vec![
+                    format!("{all_f}FSFR{all_f}F"),
+                    format!("IF{}", "IF".repeat(nf)),
+                    format!("FRFRIRF{all_f}SIF"),
+                    format!("SISR{all_f}IFRI"),
+                ];
+                for _ in 0..(if thorough { 6 } else { 3 }) {
+                    let len = 1 + o_rng.below(30) as usize;
+                    seqs.push((0..len).map(|_| *o_rng.pick(&['F', 'F', 'F', 'R', 'I', 'S'])).collect());
+                }
+                for q in &seqs {
+                    if class == "ops.damaged" && file.len() > 4000 {
+                        continue;
+                    }
+                    cx.ops(class, file, q);
                 }
             }
         }
